@@ -216,6 +216,24 @@ theorem rmMetLoop_step (m : Id) (rs : List Id) (y : Sys) (g : Good y.s) (hm : y.
         exact hmr (this.2 h)
       · exact i5 r' hmem hr'
 
+theorem push_s (y : Sys) (u : Undo) : (push y u).s = y.s := by
+  unfold push; split <;> rfl
+
+theorem addMets_hasG (y : Sys) (r : Id) (ps : List (Id × Rat)) (c n : Bool) : (addMets y r ps c n).1.s.hasG = y.s.hasG := by
+  unfold addMets
+  simp only []
+  repeat' split
+  all_goals first | rfl | (simp only [push_s]; rfl)
+
+theorem rmMetLoop_hasG (m : Id) (rs : List Id) (y : Sys) : (rmMetLoop m rs y).s.hasG = y.s.hasG := by
+  induction rs generalizing y with
+  | nil => rfl
+  | cons r rs ih =>
+    simp only [rmMetLoop]
+    split
+    · rw [ih, addMets_hasG]
+    · exact ih y
+
 theorem rmMet_step (y : Sys) (g : Good y.s) (m : Id) (hm : y.s.hasM m = true) : Step y (rmMet y m) := by
   obtain ⟨i1, i2, i3, i4, i5, _⟩ := rmMetLoop_step m y.s.univR y g hm
   unfold rmMet
@@ -253,6 +271,297 @@ theorem rmMet_effect (y : Sys) (g : Good y.s) (m : Id) (hm : y.s.hasM m = true) 
   generalize rmMetLoop m y.s.univR y = y1 at *
   refine ⟨by simp [dropMetRaw, putMetSlot, upd], by simp [dropMetRaw, putMetSlot, upd],
     fun x hx => by simp [dropMetRaw, putMetSlot, upd, hx, i2], i3, fun r hr => i5 r (g.wf.inUniv r hr) hr, fun r x hx => i6 r x hx⟩
+
+/-! ### a metabolite leaves the model together with its reactions -/
+
+theorem removeRxn_s (y : Sys) (r : Id) : (removeRxn y r).s = removeRxnRaw y.s r := by
+  unfold removeRxn; split <;> rfl
+
+theorem rmMetDLoop_step (m : Id) (rs : List Id) (y : Sys) (g : Good y.s) (hm : y.s.hasM m = true) :
+    Step y (rmMetDLoop m rs y) ∧ (rmMetDLoop m rs y).s.hasM = y.s.hasM ∧
+    (∀ r, y.s.mr m r = false → (rmMetDLoop m rs y).s.mr m r = false) ∧
+    (∀ r ∈ rs, (rmMetDLoop m rs y).s.mr m r = false) ∧
+    (∀ r, (rmMetDLoop m rs y).s.hasR r = true → y.s.hasR r = true) ∧
+    (∀ r, y.s.hasR r = true → y.s.mr m r = false → (rmMetDLoop m rs y).s.hasR r = true) ∧
+    (rmMetDLoop m rs y).s.st = y.s.st := by
+  induction rs generalizing y with
+  | nil => exact ⟨Step.refl g, rfl, fun _ h => h, fun r hr => (by cases hr), fun _ h => h, fun _ h _ => h, rfl⟩
+  | cons r rs ih =>
+    simp only [rmMetDLoop]
+    split
+    · rename_i hmr
+      have hr : y.s.hasR r = true := g.wf.mr_has m r hm hmr
+      have hstep := removeRxn_step y g r hr
+      have hs := removeRxn_s y r
+      generalize removeRxn y r = y1 at hstep hs
+      have hM1 : y1.s.hasM = y.s.hasM := by rw [hs]; rfl
+      have hmr1 : ∀ x, y1.s.mr m x = if x = r then false else y.s.mr m x := by
+        intro x; rw [hs]; rfl
+      have hR1 : ∀ x, y1.s.hasR x = if x = r then false else y.s.hasR x := by
+        intro x; rw [hs]; simp [removeRxnRaw, upd]
+      obtain ⟨i1, i2, i3, i4, i5, i6, i7⟩ := ih y1 hstep.1 (by rw [hM1]; exact hm)
+      refine ⟨hstep.trans i1, by rw [i2, hM1], ?_, ?_, ?_, ?_, by rw [i7, hs]; rfl⟩
+      · intro x hx
+        apply i3; rw [hmr1]; split
+        · rfl
+        · exact hx
+      · intro x hmem
+        rcases List.mem_cons.1 hmem with e | hmem
+        · subst e; apply i3; rw [hmr1]; simp
+        · exact i4 x hmem
+      · intro x hx
+        have := i5 x hx
+        rw [hR1] at this
+        by_cases hxr : x = r
+        · simp [hxr] at this
+        · simpa [hxr] using this
+      · intro x hx hnot
+        apply i6 x
+        · rw [hR1]
+          have hxr : x ≠ r := fun e => by rw [e, hmr] at hnot; cases hnot
+          simp [hxr, hx]
+        · rw [hmr1]; split
+          · rfl
+          · exact hnot
+    · rename_i hmr
+      obtain ⟨i1, i2, i3, i4, i5, i6, i7⟩ := ih y g hm
+      refine ⟨i1, i2, i3, ?_, i5, i6, i7⟩
+      intro x hmem
+      rcases List.mem_cons.1 hmem with e | hmem
+      · subst e; exact i3 x (by simpa using hmr)
+      · exact i4 x hmem
+
+theorem rmMetD_step (y : Sys) (g : Good y.s) (m : Id) (hm : y.s.hasM m = true) : Step y (rmMetD y m) := by
+  obtain ⟨i1, i2, i3, i4, i5, _, _⟩ := rmMetDLoop_step m y.s.univR y g hm
+  unfold rmMetD
+  generalize rmMetDLoop m y.s.univR y = y1 at *
+  have hm1 : y1.s.hasM m = true := by rw [i2]; exact hm
+  have hz : ∀ r, y1.s.hasR r = true → y1.s.st r m = 0 := by
+    intro r hr
+    have hmr : y1.s.mr m r = false := i4 r (g.wf.inUniv r (i5 r hr))
+    apply Classical.byContradiction
+    intro h
+    rw [(i1.1.wf.mr_iff m r hm1 hr).2 h] at hmr
+    cases hmr
+  have hgood := dropMetRaw_good i1.1 m hz
+  refine i1.trans ?_
+  cases hc : y1.ctx with
+  | nil =>
+    have hin : inCtx y1 = false := by simp [inCtx, hc]
+    simp only [hin, Bool.false_eq_true, if_false]
+    exact ⟨hgood, by simp [hc]⟩
+  | cons c cs =>
+    have hin : inCtx y1 = true := by simp [inCtx, hc]
+    simp only [hin, if_true, push]
+    refine ⟨hgood, ?_⟩
+    simp only [hc]
+    refine ⟨[.putMetSlot m (getMetSlot y1.s m)], by simp, ?_⟩
+    simp only [Undoes, replay, runUndo, dropMetRaw, putMetSlot_restore]
+
+/-- what `remove_metabolites([m], destructive=True)` does: the metabolite is gone and so is exactly every reaction that listed it; the reactions
+    that stay keep their stoichiometry -/
+theorem rmMetD_effect (y : Sys) (g : Good y.s) (m : Id) (hm : y.s.hasM m = true) :
+    let s' := (rmMetD y m).s
+    s'.hasM m = false ∧ s'.hasC m = false ∧ (∀ x, x ≠ m → s'.hasM x = y.s.hasM x) ∧
+    (∀ r, y.s.hasR r = true → (s'.hasR r = true ↔ y.s.st r m = 0)) ∧ (∀ r, s'.hasR r = true → y.s.hasR r = true) ∧ s'.st = y.s.st := by
+  obtain ⟨i1, i2, i3, i4, i5, i6, i7⟩ := rmMetDLoop_step m y.s.univR y g hm
+  have hs : (rmMetD y m).s = dropMetRaw (rmMetDLoop m y.s.univR y).s m := by
+    unfold rmMetD; simp only []
+  show _ ∧ _
+  rw [hs]
+  generalize rmMetDLoop m y.s.univR y = y1 at *
+  have hm1 : y1.s.hasM m = true := by rw [i2]; exact hm
+  refine ⟨by simp [dropMetRaw, putMetSlot, upd], by simp [dropMetRaw, putMetSlot, upd],
+    fun x hx => by simp [dropMetRaw, putMetSlot, upd, hx, i2], ?_, fun r hr => i5 r hr, i7⟩
+  intro r hr
+  show y1.s.hasR r = true ↔ _
+  constructor
+  · intro h1
+    have hmr : y1.s.mr m r = false := i4 r (g.wf.inUniv r hr)
+    apply Classical.byContradiction
+    intro h
+    have : y1.s.st r m ≠ 0 := by rw [i7]; exact h
+    rw [(i1.1.wf.mr_iff m r hm1 h1).2 this] at hmr
+    cases hmr
+  · intro h0
+    apply i6 r hr
+    cases hmr : y.s.mr m r with
+    | false => rfl
+    | true => exact absurd h0 ((g.wf.mr_iff m r hm hr).1 hmr)
+
+/-! ### a reaction leaves the model together with what it orphans -/
+
+theorem dropGene_good {s : St} (g : Good s) (gi : Id) (hg : s.hasG gi = true) (ho : orphanG s gi = true) :
+    Good { s with hasG := upd s.hasG gi false } := by
+  have w := g.wf
+  have hno : ∀ x, s.hasR x = true → s.rg x gi = false := by
+    intro x hx
+    have hmem := w.inUniv x hx
+    have : s.gr gi x = false := by
+      have := List.all_eq_true.1 ho x hmem
+      simpa using this
+    cases h : s.rg x gi with
+    | false => rfl
+    | true => rw [(w.gr_iff gi x hg hx).2 h] at this; cases this
+  have hG : ∀ x, (upd s.hasG gi false) x = true → s.hasG x = true ∧ x ≠ gi := by
+    intro x hx
+    simp only [upd] at hx
+    by_cases hxg : x = gi
+    · simp [hxg] at hx
+    · simp only [hxg, if_false] at hx; exact ⟨hx, hxg⟩
+  refine ⟨⟨g.ns.rev_ne, g.ns.rev_inj⟩, ?_, ⟨g.sync.vars, g.sync.box, g.sync.rows, g.sync.coef, g.sync.objrev⟩⟩
+  constructor
+  · exact w.mr_iff
+  · exact w.st_has
+  · exact w.rg_rule
+  · intro gg x hgg hx
+    exact w.gr_iff gg x (hG gg hgg).1 hx
+  · intro x gg hx h
+    have := w.rg_has x gg hx h
+    have hne : gg ≠ gi := fun e => by rw [e, hno x hx] at h; cases h
+    simp [upd, hne, this]
+  · exact w.bounds
+  · exact w.inUniv
+  · intro gg x hgg h
+    exact w.gr_has gg x (hG gg hgg).1 h
+  · exact w.mr_has
+
+theorem dropGene_step (y : Sys) (g : Good y.s) (gi : Id) (hg : y.s.hasG gi = true) (ho : orphanG y.s gi = true) :
+    Step y (dropGene y gi) := by
+  have hgood := dropGene_good g gi hg ho
+  unfold dropGene
+  cases hc : y.ctx with
+  | nil =>
+    have hin : inCtx y = false := by simp [inCtx, hc]
+    simp only [hin, Bool.false_eq_true, if_false]
+    exact ⟨hgood, by simp [hc]⟩
+  | cons c cs =>
+    have hin : inCtx y = true := by simp [inCtx, hc]
+    simp only [hin, if_true, push]
+    refine ⟨hgood, ?_⟩
+    simp only [hc]
+    refine ⟨[.setHasG gi true], by simp, ?_⟩
+    simp only [Undoes, replay, runUndo]
+    have : upd (upd y.s.hasG gi false) gi true = y.s.hasG := by
+      funext x; simp only [upd]; by_cases h : x = gi <;> simp [h, hg]
+    rw [this]
+
+theorem orphanMetLoop_step (r : Id) (ms : List Id) (y : Sys) (g : Good y.s) :
+    Step y (orphanMetLoop r ms y) ∧ (orphanMetLoop r ms y).s.hasR = y.s.hasR ∧ (orphanMetLoop r ms y).s.hasG = y.s.hasG ∧
+    (∀ m, (orphanMetLoop r ms y).s.hasM m = true → y.s.hasM m = true) := by
+  induction ms generalizing y with
+  | nil => exact ⟨Step.refl g, rfl, rfl, fun _ h => h⟩
+  | cons m ms ih =>
+    simp only [orphanMetLoop]
+    split
+    · rename_i hcond
+      simp only [Bool.and_eq_true, decide_eq_true_eq] at hcond
+      have hm := hcond.1.2
+      have hstep := rmMet_step y g m hm
+      obtain ⟨e1, _, e3, e4, _, _⟩ := rmMet_effect y g m hm
+      have eG : (rmMet y m).s.hasG = y.s.hasG := by
+        obtain ⟨_, _, _, _, _, _⟩ := rmMetLoop_step m y.s.univR y g hm
+        unfold rmMet; simp only [dropMetRaw, putMetSlot]
+        exact rmMetLoop_hasG m y.s.univR y
+      obtain ⟨i1, i2, i3, i4⟩ := ih (rmMet y m) hstep.1
+      refine ⟨hstep.trans i1, by rw [i2]; exact e4, by rw [i3, eG], ?_⟩
+      intro x hx
+      have := i4 x hx
+      by_cases hxm : x = m
+      · rw [hxm]; exact hm
+      · rw [← e3 x hxm]; exact this
+    · exact ih y g
+
+theorem orphanGeneLoop_step (r : Id) (gs : List Id) (y : Sys) (g : Good y.s) :
+    Step y (orphanGeneLoop r gs y) ∧ (orphanGeneLoop r gs y).s.hasR = y.s.hasR ∧ (orphanGeneLoop r gs y).s.hasM = y.s.hasM ∧
+    (∀ x, (orphanGeneLoop r gs y).s.hasG x = true → y.s.hasG x = true) := by
+  induction gs generalizing y with
+  | nil => exact ⟨Step.refl g, rfl, rfl, fun _ h => h⟩
+  | cons gi gs ih =>
+    simp only [orphanGeneLoop]
+    split
+    · rename_i hcond
+      simp only [Bool.and_eq_true] at hcond
+      have hstep := dropGene_step y g gi hcond.1.2 hcond.2
+      have hs : (dropGene y gi).s = { y.s with hasG := upd y.s.hasG gi false } := by
+        unfold dropGene; split <;> rfl
+      obtain ⟨i1, i2, i3, i4⟩ := ih (dropGene y gi) hstep.1
+      refine ⟨hstep.trans i1, by rw [i2, hs], by rw [i3, hs], ?_⟩
+      intro x hx
+      have := i4 x hx
+      rw [hs] at this
+      simp only [upd] at this
+      by_cases hxg : x = gi
+      · rw [hxg]; exact hcond.1.2
+      · simpa [hxg] using this
+    · exact ih y g
+
+theorem removeRxnO_step (y : Sys) (g : Good y.s) (r : Id) (hr : y.s.hasR r = true) :
+    Step y (removeRxnO y r) ∧ (removeRxnO y r).s.hasR r = false ∧ (∀ x, x ≠ r → (removeRxnO y r).s.hasR x = y.s.hasR x) ∧
+    (∀ m, (removeRxnO y r).s.hasM m = true → y.s.hasM m = true) ∧ (∀ x, (removeRxnO y r).s.hasG x = true → y.s.hasG x = true) := by
+  have h1 := removeRxn_step y g r hr
+  have e1 := removeRxn_s y r
+  unfold removeRxnO
+  simp only []
+  generalize removeRxn y r = y1 at h1 e1
+  obtain ⟨a1, a2, a3, a4⟩ := orphanMetLoop_step r y1.s.univM y1 h1.1
+  generalize orphanMetLoop r y1.s.univM y1 = y2 at a1 a2 a3 a4
+  obtain ⟨b1, b2, b3, b4⟩ := orphanGeneLoop_step r y2.s.univG y2 a1.1
+  refine ⟨(h1.trans a1).trans b1, ?_, ?_, ?_, ?_⟩
+  · rw [b2, a2, e1]; simp [removeRxnRaw, upd]
+  · intro x hx; rw [b2, a2, e1]; simp [removeRxnRaw, upd, hx]
+  · intro m hm
+    rw [b3] at hm
+    have := a4 m hm
+    rw [e1] at this; exact this
+  · intro x hx
+    have := b4 x hx
+    rw [a3, e1] at this; exact this
+
+theorem removeRxns_step (orphans : Bool) (rs : List Id) (y : Sys) (g : Good y.s) :
+    Step y (removeRxns orphans rs y) ∧ (∀ r ∈ rs, (removeRxns orphans rs y).s.hasR r = false) ∧
+    (∀ x, x ∉ rs → (removeRxns orphans rs y).s.hasR x = y.s.hasR x) := by
+  induction rs generalizing y with
+  | nil => exact ⟨Step.refl g, fun r hr => (by cases hr), fun _ _ => rfl⟩
+  | cons r rs ih =>
+    simp only [removeRxns]
+    split
+    · rename_i hr
+      have hstep : Step y (if orphans = true then removeRxnO y r else removeRxn y r) := by
+        split
+        · exact (removeRxnO_step y g r hr).1
+        · exact removeRxn_step y g r hr
+      have hR : (if orphans = true then removeRxnO y r else removeRxn y r).s.hasR r = false ∧
+          ∀ x, x ≠ r → (if orphans = true then removeRxnO y r else removeRxn y r).s.hasR x = y.s.hasR x := by
+        split
+        · exact ⟨(removeRxnO_step y g r hr).2.1, (removeRxnO_step y g r hr).2.2.1⟩
+        · exact ⟨(removeRxn_effect y r).1, (removeRxn_effect y r).2.1⟩
+      generalize (if orphans = true then removeRxnO y r else removeRxn y r) = y1 at hstep hR
+      obtain ⟨i1, i2, i3⟩ := ih y1 hstep.1
+      refine ⟨hstep.trans i1, ?_, ?_⟩
+      · intro x hx
+        rcases List.mem_cons.1 hx with e | hx
+        · subst e
+          by_cases hmem : x ∈ rs
+          · exact i2 x hmem
+          · rw [i3 x hmem]; exact hR.1
+        · exact i2 x hx
+      · intro x hx
+        have h1 : x ≠ r := fun e => hx (by rw [e]; exact List.mem_cons_self ..)
+        have h2 : x ∉ rs := fun e => hx (List.mem_cons_of_mem _ e)
+        rw [i3 x h2, hR.2 x h1]
+    · rename_i hr
+      obtain ⟨i1, i2, i3⟩ := ih y g
+      refine ⟨i1, ?_, ?_⟩
+      · intro x hx
+        rcases List.mem_cons.1 hx with e | hx
+        · subst e
+          by_cases hmem : x ∈ rs
+          · exact i2 x hmem
+          · rw [i3 x hmem]; simpa using hr
+        · exact i2 x hx
+      · intro x hx
+        exact i3 x (fun e => hx (List.mem_cons_of_mem _ e))
 
 /-! ### scaling a reaction -/
 
